@@ -21,6 +21,7 @@ import Oas3Model.Driver.Inject
 import Oas3Model.Driver.ReqInterop
 import Oas3Model.Driver.Valid
 import Oas3Model.Driver.ValidSites
+import Oas3Model.Driver.Lex
 open Lean Oas3.Driver
 
 def allOps : List (String × Handler) := List.flatten [
@@ -46,6 +47,7 @@ def allOps : List (String × Handler) := List.flatten [
   Oas3.Driver.ReqInterop.ops,
   Oas3.Driver.Valid.ops,
   Oas3.Driver.ValidSites.ops,
+  Oas3.Driver.Lex.ops,
   []]
 
 def handleLine (line : String) : String :=
